@@ -348,3 +348,78 @@ def perturb(rnd: random.Random, case: dict, where: str | None = None) -> tuple[d
         return None
     set_value(c, it["path"], v)
     return c, f"{kind}@{it['name']}"
+
+
+# ---- directed families ---------------------------------------------------------------------------------------
+
+
+def _mk_sig(sig, arrays, ret=None, retval=None, provider=None):
+    from harness.props.c01 import sig_case  # late import: c01 imports this module
+
+    return sig_case(sig, arrays, ret=ret, retval=retval, provider=provider)
+
+
+def rebound_cases(rnd: random.Random, n: int) -> list[dict]:
+    """Conforming contexts in which a named expression `x=<e>` meets a name x that an earlier axis already bound
+    (to the value of e): the one place where an axis has two demanded values.  The earlier binding comes from a
+    plain axis, a named literal, a provider, or an earlier tensor of a tuple; the named expression sits in a later
+    parameter, a later tuple element or the return annotation."""
+    out = []
+    while len(out) < n:
+        names = rnd.sample(["a", "b", "c", "d"], rnd.choice([2, 3]))
+        x, vs = names[0], names[1:]
+        rho = {v: rnd.choice([1, 2, 3, 5]) for v in vs}
+        e = None
+        for _ in range(20):
+            cand = G.gen_level(rnd, 1, rnd.choice([1, 2]), names=vs, lits=[0, 1, 2, 3])
+            if cand[0] in ("lit", "var") or not G.variables(cand):
+                continue
+            try:
+                val = G.den(cand, rho)
+            except (G.Undefined, G.TooBig):
+                continue
+            if 0 <= val <= 12:
+                e = cand
+                break
+        if e is None:
+            continue
+        rho[x] = val
+        first_dims = vs + [x]
+        rnd.shuffle(first_dims)
+        how = rnd.choice(["param", "param", "ret", "tuple", "provider", "namelit"])
+        es = f"{x}={G.print_expr(e)}"
+        extra = rnd.choice([[], [rnd.choice(vs)], ["2"]])
+        second = extra + [es] if rnd.random() < 0.5 else [es] + extra
+        sh2 = tuple((2 if t == "2" else rho[t]) if t != es else val for t in second)
+        if how == "provider":
+            c = _mk_sig([("p0", " ".join(vs)), ("p1", " ".join(second))], [tuple(rho[v] for v in vs), sh2],
+                        provider={"kind": "free", "scope": {x: val}, "fresh": True})
+        elif how == "namelit":
+            fd = [f"{x}={val}" if t == x else t for t in first_dims]
+            c = _mk_sig([("p0", " ".join(fd)), ("p1", " ".join(second))], [tuple(rho[t] for t in first_dims), sh2])
+        elif how == "ret":
+            c = _mk_sig([("p0", " ".join(first_dims))], [tuple(rho[t] for t in first_dims)], ret=" ".join(second), retval=sh2)
+        elif how == "tuple":
+            c = _mk_sig([("p0", (" ".join(first_dims), " ".join(second)))], [(tuple(rho[t] for t in first_dims), sh2)])
+        else:
+            c = _mk_sig([("p0", " ".join(first_dims)), ("p1", " ".join(second))], [tuple(rho[t] for t in first_dims), sh2])
+        c["rho"] = dict(rho)
+        out.append(c)
+    return out
+
+
+def all_resizes(case: dict, alts: int = 2) -> list[dict]:
+    """Every single-axis resize of every array of the case (alts alternative sizes per axis, deterministic)."""
+    out = []
+    for it in flatten(case):
+        v = it["v"]
+        if v is None or v.get("k") != "arr":
+            continue
+        for i, s in enumerate(v["shape"]):
+            for new in [t for t in (s + 1, max(s - 1, 0), s + 2) if t != s][:alts]:
+                c = copy.deepcopy(case)
+                nv = copy.deepcopy(v)
+                nv["shape"][i] = new
+                set_value(c, it["path"], nv)
+                out.append(c)
+    return out
